@@ -63,6 +63,11 @@ func main() {
 	}
 	res.Note("variant found in the tree: leafFix=%v sysProbeFix=%v histOrderFix=%v migValFix=%v", lf, sp, ho, migValFix())
 	res.Hit(fmt.Sprintf("variant:migValFix=%v", migValFix()))
+	res.Note("variant of the legacy backend: dupDeclFix=%v", dupDeclFix())
+	res.Hit(fmt.Sprintf("variant:dupDeclFix=%v", dupDeclFix()))
+	if probeErr != nil {
+		res.Fatalf("variant probe: %v", probeErr)
+	}
 	res.Hit(fmt.Sprintf("variant:histOrderFix=%v", ho))
 	res.Hit(fmt.Sprintf("variant:leafFix=%v", lf))
 	res.Hit(fmt.Sprintf("variant:sysProbeFix=%v", sp))
